@@ -61,7 +61,7 @@ P = {
          "limits) on release and debug-assertions+overflow-checks builds of all 8 configurations.", PROOF_AX),
  'C05': (E2E_CAT, 'Coq: configuration independence as a corollary of the end-to-end theorem + bit-for-bit cross-configuration differential on the real code',
          "C05_config_independent (props/C05.v) for any two shipped configurations and build modes. Corollary of: " + E2E +
-         "All 8 configurations of the real code are run on the same inputs and compared bit for bit (this found the compact defect, now fixed).", PROOF_AX),
+         "All 8 configurations of the real code are run on the same inputs and compared bit for bit (this found the compact defect, now fixed); a build-configuration inventory (every cfg / cfg! / env! predicate of the source, the functional lines of Cargo.toml, build scripts) is diffed against the one the 8 configurations were chosen for, so that code conditional on anything the harness does not build is reported.", PROOF_AX),
  'C06': (E2E_CAT, 'Coq: end-to-end theorem for inputs of up to 2^28 digits + the MAX_DIGITS truncation argument + correspondence with deep-digit generators',
          "props/C06.v: parse_number keeps 19 digits + flag, parse_mantissa keeps MAX_DIGITS digits + one sticky digit, truncation_preserves_rounding "
          "(every rounding boundary has <= MAX_DIGITS significant digits; side condition computed on the regenerated constant: f64 needs >= 768), "
